@@ -715,9 +715,100 @@ def _specialise_wrappers(facts):
     return notes
 
 
+def _const_value(e, consts, depth=0):
+    """The constant an initialiser stands for, as a tree of literals (None if it is anything else)."""
+    if e is None or depth > 6:
+        return None
+    k = e.get("k")
+    if k == "lit":
+        return e
+    if k == "block" and not e.get("stmts") and e.get("e") is not None:
+        return _const_value(e["e"], consts, depth + 1)
+    if k in ("addrof", "unary", "cast"):
+        inner = _const_value(e.get("e"), consts, depth + 1)
+        if inner is None:
+            return None
+        if k == "addrof":
+            return inner if inner.get("k") == "lit" else dict(e, e=inner)
+        return dict(e, e=inner)
+    if k in ("tup", "array"):
+        es = [_const_value(x, consts, depth + 1) for x in e.get("es", [])]
+        return None if any(x is None for x in es) else dict(e, es=es)
+    if k == "path" and e.get("res") == "def" and e.get("dk") in ("Const", "AssocConst", "Static"):
+        g = consts.get(fb.norm(e.get("def") or ""))
+        return _const_value(g.body, consts, depth + 1) if g is not None and g.body is not None else None
+    return None
+
+
+def _propagate_consts(facts):
+    """A literal that was given a name (`const METHOD_EXIT: &str = "exit";`, also as a pattern) since the recorded tree is read as the literal: rules that look for the value
+    find it whether or not it has a name.  Recorded constants keep their names (the pinned tree is left as it is)."""
+    rec = _recorded()
+    if rec is None:
+        return []
+    consts = {}
+    for f in facts.fn_list:
+        if f.kind in ("const", "static") and f.body is not None and f.crate in ("liwe", "iwes", "iwe"):
+            known = rec.get(f.unit)
+            if known is None or f.def_ in known:
+                continue
+            consts[f.def_] = f
+    if not consts:
+        return []
+    values = {}
+    for d, f in consts.items():
+        v = _const_value(f.body, consts)
+        if v is not None:
+            values[d] = v
+    if not values:
+        return []
+    used = set()
+
+    def visit(node):
+        if isinstance(node, list):
+            for x in node:
+                visit(x)
+            return
+        if not isinstance(node, dict):
+            return
+        k = node.get("k")
+        if k in ("path", "p_path") and node.get("res") == "def" and node.get("dk") in ("Const", "AssocConst", "Static"):
+            d = fb.norm(node.get("def") or "")
+            v = values.get(d)
+            if v is not None:
+                if k == "p_path":
+                    if v.get("k") == "lit":
+                        keep = {x: node[x] for x in ("s", "ln") if x in node}
+                        node.clear()
+                        node.update({"k": "p_lit", "v": v.get("v", "")})
+                        node.update(keep)
+                        used.add(d)
+                    return
+                keep = {x: node[x] for x in ("s", "ln", "ty") if x in node}
+                node.clear()
+                node.update(copy.deepcopy(v))
+                node.update(keep)
+                used.add(d)
+                return
+        for key, val in list(node.items()):
+            if isinstance(val, (dict, list)):
+                visit(val)
+    for g in facts.fn_list:
+        if g.body is not None and g.def_ not in values:
+            visit(g.body)
+            g._canon_env = None
+    if not used:
+        return []
+    return ["%d named constant(s) introduced since the recorded tree are read as their values (%s)" % (len(used), ", ".join("`%s`" % fb.last_seg(x) for x in sorted(used)[:6]) + (" ..." if len(used) > 6 else ""))]
+
+
 def apply(facts):
     """Inline unrecorded helper fns into their callers (in place). Returns notes for the evidence."""
     notes0 = []
+    try:
+        notes0 += _propagate_consts(facts)
+    except Exception as e:
+        notes0.append("constant propagation disabled: %s" % e)
     try:
         notes0 += _specialise_merged(facts)
     except Exception as e:
